@@ -57,6 +57,9 @@ pub struct Actor {
     /// stack switch) of coroutine actor `kernel_of`; active between co.switched and co.subscribed
     pub kernel_of: Option<usize>,
     pub kactive: usize,
+    /// finished only when its coroutine is really done (co.done), not when its body returns: the
+    /// epilogue of the coroutine (Join::trigger ...) stays under the baton
+    pub fin_on_done: bool,
 }
 
 #[derive(Clone, Debug)]
@@ -201,6 +204,7 @@ impl Ctrl {
                 hosting: None,
                 kernel_of: None,
                 kactive: 0,
+                fin_on_done: false,
             })
             .collect();
         g.by_vid.clear();
@@ -249,6 +253,12 @@ impl Ctrl {
         g.co.insert(vid, CoSt::Running);
         g.change += 1;
         self.cv.notify_all();
+    }
+
+    /// like enroll_co, but the actor counts as finished only at `co.done`
+    pub fn enroll_co_until_done(&self, actor: usize) {
+        self.enroll_co(actor);
+        self.lock().actors[actor].fin_on_done = true;
     }
 
     pub fn finished(&self, actor: usize, panicked: bool) {
@@ -599,6 +609,11 @@ impl may::verif::Controller for Ctrl {
             }
             "co.done" => {
                 g.co.insert(a, CoSt::Done);
+                if let Some(i) = g.by_vid.get(&a).copied() {
+                    if g.actors[i].fin_on_done && g.actors[i].vid == a {
+                        g.actors[i].st = ASt::Finished(false);
+                    }
+                }
                 for x in g.actors.iter_mut() {
                     if x.hosting == Some(a) {
                         x.hosting = None;
